@@ -22,8 +22,14 @@ export function build(x) {
       }
       return f();
     }
-    case "arr":
-      return x.items.map(build);
+    case "arr": {
+      if (!x.items.some((i) => i.a === "hole")) return x.items.map(build);
+      const arr = new Array(x.items.length); // sparse: a hole is an index the array does not have
+      x.items.forEach((i, n) => {
+        if (i.a !== "hole") arr[n] = build(i);
+      });
+      return arr;
+    }
     case "obj": {
       const o = {};
       for (const [k, v] of x.entries) Object.defineProperty(o, k, { value: build(v), enumerable: true, writable: true, configurable: true });
@@ -42,7 +48,7 @@ export function toSrc(x) {
     case "raw":
       return x.src;
     case "arr":
-      return "[" + x.items.map(toSrc).join(", ") + "]";
+      return "[" + x.items.map((i) => (i.a === "hole" ? "" : toSrc(i))).join(", ") + (x.items.length && x.items[x.items.length - 1].a === "hole" ? "," : "") + "]";
     case "obj":
       if (x.entries.some(([k]) => k === "__proto__"))
         return "Object.defineProperties({}, {" + x.entries.map(([k, v]) => `${JSON.stringify(k)}: {value: ${toSrc(v)}, enumerable: true, writable: true, configurable: true}`).join(", ") + "})";
@@ -96,6 +102,55 @@ function* arraysOver(atoms, maxLen) {
     for (const n of next) yield Arr(n);
     layer = next;
   }
+}
+
+// sparse arrays: not part of the pool either (the reference does not judge them); C03 and C12 offer them to every
+// validator. sparseVariants(vx) punches one hole into each array of a value (first and last index), so every array
+// and tuple position a family reaches is met with a missing index, at the root and nested.
+export const HOLE = { a: "hole" };
+export function sparseVariants(vx, cap = 4) {
+  const out = [];
+  const go = (x, rebuild) => {
+    if (out.length >= cap) return;
+    switch (x.a) {
+      case "arr":
+        if (x.items.some((i) => i.a === "hole")) return;
+        for (const n of new Set([0, x.items.length - 1])) {
+          if (n < 0 || out.length >= cap) continue;
+          const items = x.items.slice();
+          items[n] = HOLE;
+          out.push({ ...rebuild(Arr(items)), sparse: true });
+        }
+        x.items.forEach((it, n) => go(it, (y) => rebuild(Arr(x.items.map((o, m) => (m === n ? y : o))))));
+        return;
+      case "obj":
+        x.entries.forEach(([k, v], n) => go(v, (y) => rebuild(Obj(x.entries.map((e, m) => (m === n ? [k, y] : e))))));
+        return;
+      case "map":
+        x.entries.forEach(([k, v], n) => go(v, (y) => rebuild(MapV(x.entries.map((e, m) => (m === n ? [k, y] : e))))));
+        return;
+      case "set":
+        x.items.forEach((it, n) => go(it, (y) => rebuild(SetV(x.items.map((o, m) => (m === n ? y : o))))));
+        return;
+    }
+  };
+  go(vx, (y) => y);
+  return out;
+}
+export function sparseSet(U, cap = 60) {
+  const seen = new Set();
+  const out = [];
+  for (const vx of U) {
+    if (vx.cyclic || vx.sparse) continue;
+    for (const s of sparseVariants(vx)) {
+      const k = toSrc(s);
+      if (seen.has(k)) continue;
+      seen.add(k);
+      out.push(s);
+      if (out.length >= cap) return out;
+    }
+  }
+  return out;
 }
 
 // cyclic values: not part of the pool (the reference and most monitors walk values); C03 and C12 add them to ask only
